@@ -16,7 +16,11 @@ package main
 //                1 non-blocking  case of a select that has a default clause
 //                2 timed         case of a select (without default) that also has
 //                                a case receiving from a chan time.Time
-//                                (time.After, Timer.C)
+//                                (time.After, Timer.C), or from the Done channel
+//                                of a context that the same function created
+//                                with context.WithTimeout / WithDeadline (a
+//                                context passed in by the caller is not a timer:
+//                                it may never end)
 //                3 multi         case of a select over several channels, no
 //                                default, no timer
 //  cpr_*       the protocol of the cursor-position request flag
@@ -47,6 +51,7 @@ type qryWalk struct {
 	fn   string
 	ops  []qryOp
 	done map[ast.Node]bool
+	body *ast.BlockStmt // body of the declaration being walked (for isLocalDeadline)
 }
 
 // field resolves e (possibly parenthesised) to a tracked channel field
@@ -81,6 +86,52 @@ func (q *qryWalk) isTimeChan(e ast.Expr) bool {
 	}
 	n, ok := ch.Elem().(*types.Named)
 	return ok && n.Obj().Pkg() != nil && n.Obj().Pkg().Path() == "time" && n.Obj().Name() == "Time"
+}
+
+// isLocalDeadline: e is `ctx.Done()` where ctx is a variable that the function being
+// walked defines as the first result of context.WithTimeout or context.WithDeadline
+func (q *qryWalk) isLocalDeadline(e ast.Expr) bool {
+	call, ok := e.(*ast.CallExpr)
+	if !ok || len(call.Args) != 0 || q.body == nil {
+		return false
+	}
+	sel, ok := call.Fun.(*ast.SelectorExpr)
+	if !ok || sel.Sel.Name != "Done" {
+		return false
+	}
+	id, ok := sel.X.(*ast.Ident)
+	if !ok {
+		return false
+	}
+	obj := q.pk.info.Uses[id]
+	if obj == nil {
+		return false
+	}
+	found := false
+	ast.Inspect(q.body, func(n ast.Node) bool {
+		as, ok := n.(*ast.AssignStmt)
+		if !ok || len(as.Rhs) != 1 || len(as.Lhs) < 1 {
+			return true
+		}
+		lhs, ok := as.Lhs[0].(*ast.Ident)
+		if !ok || (q.pk.info.Defs[lhs] != obj && q.pk.info.Uses[lhs] != obj) {
+			return true
+		}
+		c, ok := as.Rhs[0].(*ast.CallExpr)
+		if !ok {
+			return true
+		}
+		fs, ok := c.Fun.(*ast.SelectorExpr)
+		if !ok {
+			return true
+		}
+		fo, _ := q.pk.info.Uses[fs.Sel].(*types.Func)
+		if fo != nil && fo.Pkg() != nil && fo.Pkg().Path() == "context" && (fo.Name() == "WithTimeout" || fo.Name() == "WithDeadline") {
+			found = true
+		}
+		return true
+	})
+	return found
 }
 
 // commRecv returns the channel expression of a receive used as a select case
@@ -121,7 +172,7 @@ func (q *qryWalk) selectStmt(s *ast.SelectStmt) {
 			continue
 		}
 		nch++
-		if x, _ := commRecv(cc.Comm); x != nil && q.isTimeChan(x) {
+		if x, _ := commRecv(cc.Comm); x != nil && (q.isTimeChan(x) || q.isLocalDeadline(x)) {
 			hasTimer = true
 		}
 	}
@@ -156,6 +207,7 @@ func (q *qryWalk) selectStmt(s *ast.SelectStmt) {
 }
 
 func (q *qryWalk) walk(body *ast.BlockStmt) {
+	q.body = body
 	ast.Inspect(body, func(n ast.Node) bool {
 		switch v := n.(type) {
 		case *ast.SelectStmt:
